@@ -7,6 +7,7 @@ use libmctp::control_packet::*;
 use libmctp::smbus::MCTPSMBusContext;
 use libmctp::vendor_packets::VendorIDFormat;
 use libmctp::MessageType;
+use libmctp::mctp_traits::SMBusMCTPRequestResponse;
 use std::panic::{catch_unwind, AssertUnwindSafe};
 
 mod oracle;
@@ -170,21 +171,40 @@ fn witness(name: &str) -> (String, String) {
                 o => ("other".into(), format!("{:?}", o.map(|x| x.1))),
             }
         }
-        // D9a: control request with a command code above 0x08: unimplemented!() in the request length table
+        // D9a (fixed): control request with a command code above 0x08 used to hit unimplemented!() in the request length table;
+        // now accepted (no fixed length) with the bytes after the command code as payload - for the library's own encoders too
         "D9a.request_cmd_unimplemented" => {
-            let pkt = packet_bytes(0x23, 0x34, 0x00, &[0x80, 0x0A, 0x00]);
-            match quiet(AssertUnwindSafe(|| c.decode_packet(&pkt).map(|(t, p)| (t, p.to_vec())))) {
-                Err(m) => ("reproduces".into(), format!("decode_packet({}) panics: {}", hex(&pkt), m)),
-                Ok(_) => ("fixed".into(), "returns a value".into()),
+            let mut verdict = ("fixed".to_string(), "requests for commands 0x09..0xFF decode with the right payload".to_string());
+            for cmd in 0x09u8..=0xFF {
+                let pkt = packet_bytes(0x23, 0x34, 0x00, &[0x80, cmd, 0x00, 0x11]);
+                match quiet(AssertUnwindSafe(|| c.decode_packet(&pkt).map(|(t, p)| (t, p.to_vec())))) {
+                    Err(m) => { verdict = ("reproduces".into(), format!("decode_packet({}) panics: {}", hex(&pkt), m)); break; }
+                    Ok(Ok((MessageType::MCtpControl, p))) if p == vec![0x00, 0x11] => {}
+                    Ok(o) => { verdict = ("other".into(), format!("decode_packet({}) = {:?}", hex(&pkt), o.map(|x| x.1))); break; }
+                }
             }
+            if verdict.0 == "fixed" {
+                let mut buf = [0u8; 64];
+                let n = c.get_request().get_routing_table_entries(0x34, 0x07, &mut buf).unwrap();
+                match quiet(AssertUnwindSafe(|| c.decode_packet(&buf[..n]).map(|(t, p)| (t, p.to_vec())))) {
+                    Ok(Ok((MessageType::MCtpControl, p))) if p == vec![0x07] => {}
+                    o => verdict = ("other".into(), format!("own Get Routing Table Entries request: {:?}", o.map(|x| x.map(|y| y.1)))),
+                }
+            }
+            verdict
         }
-        // D9b: Success control response for command 0x07 or above 0x09: unimplemented!() in the response length table
+        // D9b (fixed): Success control response for command 0x07 or above 0x09 used to hit unimplemented!() in the response length table
         "D9b.response_cmd_unimplemented" => {
-            let pkt = packet_bytes(0x23, 0x34, 0x00, &[0x00, 0x07, 0x00, 0x01]);
-            match quiet(AssertUnwindSafe(|| c.decode_packet(&pkt).map(|(t, p)| (t, p.to_vec())))) {
-                Err(m) => ("reproduces".into(), format!("decode_packet({}) panics: {}", hex(&pkt), m)),
-                Ok(_) => ("fixed".into(), "returns a value".into()),
+            let mut verdict = ("fixed".to_string(), "Success responses for commands 0x07, 0x0A..0xFF decode with the right payload".to_string());
+            for cmd in (0x07u8..=0x07).chain(0x0A..=0xFF) {
+                let pkt = packet_bytes(0x23, 0x34, 0x00, &[0x00, cmd, 0x00, 0x01]);
+                match quiet(AssertUnwindSafe(|| c.decode_packet(&pkt).map(|(t, p)| (t, p.to_vec())))) {
+                    Err(m) => { verdict = ("reproduces".into(), format!("decode_packet({}) panics: {}", hex(&pkt), m)); break; }
+                    Ok(Ok((MessageType::MCtpControl, p))) if p == vec![0x01] => {}
+                    Ok(o) => { verdict = ("other".into(), format!("decode_packet({}) = {:?}", hex(&pkt), o.map(|x| x.1))); break; }
+                }
             }
+            verdict
         }
         // D9c: control response with a completion code above 0x05: unreachable!() in CompletionCode::from
         "D9c.completion_code_unreachable" => {
@@ -194,38 +214,60 @@ fn witness(name: &str) -> (String, String) {
                 Ok(_) => ("fixed".into(), "returns a value".into()),
             }
         }
-        // D10a: accepted control request with command 0x00 / 0x07 / 0x08: unreachable!()/unimplemented!() in process_packet
-        "D10a.process_cmd_0" | "D10a.process_cmd_7" | "D10a.process_cmd_8" => {
-            let pkt = match name {
-                "D10a.process_cmd_0" => packet_bytes(0x23, 0x34, 0x00, &[0x80, 0x00]),
-                "D10a.process_cmd_7" => packet_bytes(0x23, 0x34, 0x00, &[0x80, 0x07, 0x09]),
-                _ => packet_bytes(0x23, 0x34, 0x00, &[0x80, 0x08, 0x00, 0x01, 0x02]),
+        // D10a (fixed): an accepted control request for a command the endpoint has no answer for used to hit
+        // unreachable!()/unimplemented!() in process_packet; now reported to the caller: decoded, no response, buffer untouched
+        "D10a.process_cmd_0" | "D10a.process_cmd_7" | "D10a.process_cmd_8" | "D10a.process_cmd_above_8" => {
+            let pkts = match name {
+                "D10a.process_cmd_0" => vec![packet_bytes(0x23, 0x34, 0x00, &[0x80, 0x00])],
+                "D10a.process_cmd_7" => vec![packet_bytes(0x23, 0x34, 0x00, &[0x80, 0x07, 0x09])],
+                "D10a.process_cmd_8" => vec![packet_bytes(0x23, 0x34, 0x00, &[0x80, 0x08, 0x00, 0x01, 0x02])],
+                _ => (0x09u8..=0xFF).map(|cmd| packet_bytes(0x23, 0x34, 0x00, &[0x80, cmd, 0x01, 0x02])).collect(),
             };
-            let mut rb = [0u8; 64];
-            match quiet(AssertUnwindSafe(|| c.process_packet(&pkt, &mut rb).map(|((t, p), n)| (t, p.to_vec(), n)))) {
-                Err(m) => ("reproduces".into(), format!("process_packet({}) panics: {}", hex(&pkt), m)),
-                Ok(_) => ("fixed".into(), "returns a value".into()),
+            let mut verdict = ("fixed".to_string(), "decoded, no response, response buffer untouched".to_string());
+            for pkt in pkts {
+                let mut rb = [0xEEu8; 64];
+                match quiet(AssertUnwindSafe(|| c.process_packet(&pkt, &mut rb).map(|((t, p), n)| (t, p.to_vec(), n)))) {
+                    Err(m) => { verdict = ("reproduces".into(), format!("process_packet({}) panics: {}", hex(&pkt), m)); break; }
+                    Ok(Ok((MessageType::MCtpControl, p, None))) if p == pkt[11..pkt.len() - 1].to_vec() && rb.iter().all(|b| *b == 0xEE) => {}
+                    Ok(o) => { verdict = ("other".into(), format!("process_packet({}) = {:?} buffer {}", hex(&pkt), o.map(|x| (x.1, x.2)), hex(&rb[..16]))); break; }
+                }
             }
+            verdict
         }
-        // D10b: Set Endpoint ID with operation Reset (2) or an operation byte above 3
+        // D10b (fixed): Set Endpoint ID with operation Reset (2) or an operation byte above 3 used to panic; now answered with
+        // ErrorInvalidData, the EID stays what it was
         "D10b.set_eid_reset" | "D10b.set_eid_op_4" => {
-            let op = if name.ends_with("reset") { 2 } else { 4 };
-            let pkt = packet_bytes(0x23, 0x34, 0x00, &[0x80, 0x01, op, 0x42]);
-            let mut rb = [0u8; 64];
-            match quiet(AssertUnwindSafe(|| c.process_packet(&pkt, &mut rb).map(|((t, p), n)| (t, p.to_vec(), n)))) {
-                Err(m) => ("reproduces".into(), format!("process_packet({}) panics: {}", hex(&pkt), m)),
-                Ok(_) => ("fixed".into(), "returns a value".into()),
+            let ops: Vec<u8> = if name.ends_with("reset") { vec![2] } else { (4u8..=0xFF).collect() };
+            let mut verdict = ("fixed".to_string(), "answered with ErrorInvalidData, EID unchanged".to_string());
+            c.get_request().set_eid(0x77);
+            c.get_response().set_eid(0x77);
+            for op in ops {
+                let pkt = packet_bytes(0x23, 0x34, 0x00, &[0x80, 0x01, op, 0x42]);
+                let mut rb = [0u8; 64];
+                match quiet(AssertUnwindSafe(|| c.process_packet(&pkt, &mut rb).map(|((t, p), n)| (t, p.to_vec(), n)))) {
+                    Err(m) => { verdict = ("reproduces".into(), format!("process_packet({}) panics: {}", hex(&pkt), m)); break; }
+                    Ok(Ok((MessageType::MCtpControl, _, Some(16)))) if rb[..16] == packet_bytes(0x34, 0x23, 0x00, &[0x00, 0x01, 0x02, rb[12], 0x77, 0x00])[..]
+                        && c.get_request().get_eid() == 0x77 && c.get_response().get_eid() == 0x77 => {}
+                    Ok(o) => { verdict = ("other".into(), format!("process_packet({}) = {:?} response {}", hex(&pkt), o.map(|x| x.2), hex(&rb[..16]))); break; }
+                }
             }
+            verdict
         }
-        // D10c: Get Vendor Defined Message Support with a selector >= the number of configured sets (1 here), and 0xFF
+        // D10c (fixed): Get Vendor Defined Message Support with a selector >= the number of configured sets (1 here) used to
+        // panic (index / +1 overflow); now answered with ErrorInvalidData, end selector 0xFF and no vendor ID
         "D10c.selector_out_of_range" | "D10c.selector_ff" => {
-            let sel = if name.ends_with("ff") { 0xFF } else { 0x01 };
-            let pkt = packet_bytes(0x23, 0x34, 0x00, &[0x80, 0x06, sel]);
-            let mut rb = [0u8; 64];
-            match quiet(AssertUnwindSafe(|| c.process_packet(&pkt, &mut rb).map(|((t, p), n)| (t, p.to_vec(), n)))) {
-                Err(m) => ("reproduces".into(), format!("process_packet({}) panics: {}", hex(&pkt), m)),
-                Ok(_) => ("fixed".into(), "returns a value".into()),
+            let sels: Vec<u8> = if name.ends_with("ff") { vec![0xFF] } else { (1u8..=0xFE).collect() };
+            let mut verdict = ("fixed".to_string(), "answered with ErrorInvalidData / selector 0xFF / no vendor ID".to_string());
+            for sel in sels {
+                let pkt = packet_bytes(0x23, 0x34, 0x00, &[0x80, 0x06, sel]);
+                let mut rb = [0u8; 64];
+                match quiet(AssertUnwindSafe(|| c.process_packet(&pkt, &mut rb).map(|((t, p), n)| (t, p.to_vec(), n)))) {
+                    Err(m) => { verdict = ("reproduces".into(), format!("process_packet({}) panics: {}", hex(&pkt), m)); break; }
+                    Ok(Ok((MessageType::MCtpControl, _, Some(14)))) if rb[..14] == packet_bytes(0x34, 0x23, 0x00, &[0x00, 0x06, 0x02, 0xFF])[..] => {}
+                    Ok(o) => { verdict = ("other".into(), format!("process_packet({}) = {:?} response {}", hex(&pkt), o.map(|x| x.2), hex(&rb[..16]))); break; }
+                }
             }
+            verdict
         }
         _ => ("unknown-witness".into(), String::new()),
     }
